@@ -122,16 +122,7 @@ def build_inputs(case):
 def check_grid(case, ctx):
     coords, data, names, extra_names = build_inputs(case)
     east, north = axes_of(case)
-    masked = not case["int_data"] and build.small_hash(case, 12) % 4 == 0
     given_coords, given_data = coords, data
-    if masked:
-        # numpy masked arrays (no-data cells of a raster): a masked cell has no value and must come out blank (NaN), never as whatever
-        # number sits under the mask; every other cell keeps its value
-        hole = (np.arange(case["nr"] * case["nc"]).reshape(case["nr"], case["nc"]) % 4) == 1
-        given_data = tuple(np.ma.masked_array(np.where(hole, -99999.0, d), mask=hole) for d in data)
-        data = tuple(np.where(hole, np.nan, d) for d in data)
-        given_coords = tuple(coords[:2]) + tuple(np.ma.masked_array(np.where(hole, -99999.0, c), mask=hole) for c in coords[2:])
-        coords = tuple(coords[:2]) + tuple(np.where(hole, np.nan, c) for c in coords[2:])
     kw = {}
     dims = ("northing", "easting")
     if case["dims"] is not None:
@@ -184,7 +175,7 @@ def check_grid(case, ctx):
                   and np.array_equal(t2[dims[0]].values, nn.ravel()), "grid_to_table of a DataArray misplaces values")
     ctx.label("vars%d" % case["nvars"], "extra%d" % case["nextra"], "coords2d" if case["coords_2d"] else "coords1d",
               "custom_dims" if case["dims"] else "default_dims", "int" if case["int_data"] else "float",
-              "axes_same_dtype" if case.get("east_dtype") == case.get("north_dtype") else "axes_mixed_dtype", "masked_arrays" if masked else "plain_arrays")
+              "axes_same_dtype" if case.get("east_dtype") == case.get("north_dtype") else "axes_mixed_dtype")
     if case["nr"] == 1 or case["nc"] == 1:
         ctx.label("single_row_or_col")
     ctx.nt(case["nr"] >= 2 and case["nc"] >= 2 and case["nr"] != case["nc"])
